@@ -1,4 +1,290 @@
-import KpModel.Format.Kdbx4
+import KpModel.Props.C04
+/-!
+# C06 — reading never panics, aborts or hangs on arbitrary input (KDBX4 container)
+Property theorems only, over the faithful model of `decrypt_kdbx4` in which every Rust expression that can
+panic is modelled with its panic.  The full statement (`C06_total`) is **false** on the unchanged code;
+proved instead: the enumerated sites are the only panics (`C06_sites_complete`), each site has a witness
+input, conforming files never panic whatever the key (`C06_wf_nopanic`), and every reader terminates (all model
+functions are structurally recursive on fuel bounded by the input length).
+-/
 namespace Kp.Fmt
-theorem placeholder_C06 : True := trivial
+
+def sites : List String :=
+  ["parse_outer_header:index", "VariantDictionary::parse:index", "decrypt_kdbx4:index",
+   "AesKdf::transform_key:length", "read_hmac_block_stream:index", "parse_inner_header:index",
+   "HeaderAttachment::from:index", "Salsa20Cipher::new:length"]
+
+theorem readU32_panic (site : String) (b : Bytes) (s : String) (h : readU32 site b = .panic s) : s = site := by
+  unfold readU32 at h; split at h
+  · injection h with h; exact h.symm
+  · cases h
+theorem readU64_panic (site : String) (b : Bytes) (s : String) (h : readU64 site b = .panic s) : s = site := by
+  unfold readU64 at h; split at h
+  · injection h with h; exact h.symm
+  · cases h
+
+theorem bind_panic {α β : Type} (x : Outcome α) (f : α → Outcome β) (s : String) (h : (x >>= f) = .panic s) :
+    x = .panic s ∨ ∃ a, x = .ok a ∧ f a = .panic s := by
+  cases x with
+  | ok a => exact Or.inr ⟨a, rfl, h⟩
+  | err c => cases h
+  | panic p => injection h with h; exact Or.inl (by rw [h])
+
+theorem vdTyped_panic (ty : UInt8) (vb : Bytes) (s : String) (h : vdTyped ty vb = .panic s) :
+    s = "VariantDictionary::parse:index" := by
+  unfold vdTyped at h
+  have r32 : ∀ (f : Nat → Outcome VdVal), (∀ n, f n ≠ .panic s) →
+      (readU32 "VariantDictionary::parse:index" vb).bind f = .panic s → s = "VariantDictionary::parse:index" := by
+    intro f hf hb
+    rcases bind_panic _ _ s hb with h1 | ⟨n, _, h2⟩
+    · exact readU32_panic _ _ _ h1
+    · exact absurd h2 (hf n)
+  have r64 : ∀ (f : Nat → Outcome VdVal), (∀ n, f n ≠ .panic s) →
+      (readU64 "VariantDictionary::parse:index" vb).bind f = .panic s → s = "VariantDictionary::parse:index" := by
+    intro f hf hb
+    rcases bind_panic _ _ s hb with h1 | ⟨n, _, h2⟩
+    · exact readU64_panic _ _ _ h1
+    · exact absurd h2 (hf n)
+  split at h
+  · exact r32 _ (fun n hn => by cases hn) h
+  · split at h
+    · exact r64 _ (fun n hn => by cases hn) h
+    · split at h
+      · cases h
+      · split at h
+        · exact r32 _ (fun n hn => by cases hn) h
+        · split at h
+          · exact r64 _ (fun n hn => by cases hn) h
+          · split at h
+            · cases h
+            · split at h <;> cases h
+
+theorem vdLoop_panic : ∀ (fuel : Nat) (rest : Bytes) (d : VarDict) (s : String),
+    vdLoop fuel rest d = .panic s → s = "VariantDictionary::parse:index" := by
+  intro fuel
+  induction fuel with
+  | zero => intro rest d s h; simp [vdLoop] at h
+  | succ fuel ih =>
+    intro rest d s h
+    unfold vdLoop at h
+    split at h
+    · cases h
+    · split at h
+      · cases h
+      · simp only [] at h
+        split at h
+        · injection h with h; exact h.symm
+        · split at h
+          · injection h with h; exact h.symm
+          · split at h
+            · injection h with h; exact h.symm
+            · rcases bind_panic _ _ s h with h1 | ⟨v, _, h2⟩
+              · exact vdTyped_panic _ _ _ h1
+              · exact ih _ _ s h2
+
+theorem vdParse_panic (b : Bytes) (s : String) (h : vdParse b = .panic s) : s = "VariantDictionary::parse:index" := by
+  unfold vdParse at h
+  split at h
+  · injection h with h; exact h.symm
+  · split at h
+    · cases h
+    · split at h
+      · rename_i d rest _
+        split at h
+        · cases h
+        · split at h <;> cases h
+      · cases h
+      · rename_i p hp
+        injection h with h; subst h
+        exact vdLoop_panic _ _ _ _ hp
+
+theorem outerField_panic (acc : OuterAcc) (t : UInt8) (buf : Bytes) (s : String)
+    (h : outerField acc t buf = .panic s) : s = "parse_outer_header:index" ∨ s = "VariantDictionary::parse:index" := by
+  unfold outerField at h
+  repeat' split at h
+  all_goals first
+    | cases h
+    | (rcases bind_panic _ _ s h with h1 | ⟨n, _, h2⟩
+       · first
+         | exact Or.inl (readU32_panic _ _ _ h1)
+         | exact Or.inr (vdParse_panic _ _ h1)
+       · repeat' split at h2
+         all_goals cases h2)
+
+theorem outerLoop_panic : ∀ (fuel : Nat) (rest : Bytes) (n : Nat) (acc : OuterAcc) (s : String),
+    outerLoop fuel rest n acc = .panic s → s = "parse_outer_header:index" ∨ s = "VariantDictionary::parse:index" := by
+  intro fuel
+  induction fuel with
+  | zero => intro rest n acc s h; simp only [outerLoop] at h; injection h with h; exact Or.inl h.symm
+  | succ fuel ih =>
+    intro rest n acc s h
+    unfold outerLoop at h
+    split at h
+    · injection h with h; exact Or.inl h.symm
+    · split at h
+      · injection h with h; exact Or.inl h.symm
+      · simp only [] at h
+        split at h
+        · injection h with h; exact Or.inl h.symm
+        · split at h
+          · cases h
+          · exact ih _ _ _ s h
+          · cases h
+          · rename_i p hp; injection h with h; subst h; exact outerField_panic _ _ _ _ hp
+
+theorem parseOuterHeader_panic (data : Bytes) (s : String) (h : parseOuterHeader data = .panic s) :
+    s = "parse_outer_header:index" ∨ s = "VariantDictionary::parse:index" := by
+  unfold parseOuterHeader at h
+  split at h
+  · rcases bind_panic _ _ s h with h1 | ⟨a, _, h2⟩
+    · exact outerLoop_panic _ _ _ _ _ h1
+    · obtain ⟨acc, n⟩ := a
+      simp only at h2
+      split at h2 <;> cases h2
+  · cases h
+
+theorem slice_panic (site : String) (d : Bytes) (a b : Nat) (s : String) (h : slice site d a b = .panic s) : s = site := by
+  unfold slice at h; split at h
+  · cases h
+  · injection h with h; exact h.symm
+
+theorem readBlocks_panic (P : Prims) (hk : Bytes) : ∀ (fuel : Nat) (rest : Bytes) (idx : Nat) (out : Bytes) (s : String),
+    readBlocks P hk fuel rest idx out = .panic s → s = "read_hmac_block_stream:index" := by
+  intro fuel
+  induction fuel with
+  | zero => intro rest idx out s h; simp [readBlocks] at h
+  | succ fuel ih =>
+    intro rest idx out s h
+    rw [readBlocks] at h
+    simp only [] at h
+    split at h
+    · cases h
+    · split at h
+      · injection h with h; exact h.symm
+      · split at h
+        · injection h with h; exact h.symm
+        · split at h
+          · injection h with h; exact h.symm
+          · split at h
+            · cases h
+            · split at h
+              · cases h
+              · exact ih _ _ _ _ h
+
+theorem innerField_panic (acc : InnerAcc) (t : UInt8) (buf : Bytes) (s : String)
+    (h : innerField acc t buf = .panic s) : s = "parse_inner_header:index" ∨ s = "HeaderAttachment::from:index" := by
+  unfold innerField at h
+  split at h
+  · cases h
+  · split at h
+    · rcases bind_panic _ _ s h with h1 | ⟨n, _, h2⟩
+      · exact Or.inl (readU32_panic _ _ _ h1)
+      · split at h2 <;> cases h2
+    · split at h
+      · cases h
+      · split at h
+        · split at h
+          · injection h with h; exact Or.inr h.symm
+          · cases h
+        · cases h
+
+theorem innerLoop_panic : ∀ (fuel : Nat) (rest : Bytes) (n : Nat) (acc : InnerAcc) (s : String),
+    innerLoop fuel rest n acc = .panic s → s = "parse_inner_header:index" ∨ s = "HeaderAttachment::from:index" := by
+  intro fuel
+  induction fuel with
+  | zero => intro rest n acc s h; simp only [innerLoop] at h; injection h with h; exact Or.inl h.symm
+  | succ fuel ih =>
+    intro rest n acc s h
+    unfold innerLoop at h
+    split at h
+    · injection h with h; exact Or.inl h.symm
+    · split at h
+      · injection h with h; exact Or.inl h.symm
+      · simp only [] at h
+        split at h
+        · injection h with h; exact Or.inl h.symm
+        · split at h
+          · cases h
+          · exact ih _ _ _ s h
+          · cases h
+          · rename_i p hp; injection h with h; subst h; exact innerField_panic _ _ _ _ hp
+
+theorem runKdf_panic (P : Prims) (k : KdfConfig) (seed comp : Bytes) (s : String)
+    (h : runKdf P k seed comp = .panic s) : s = "AesKdf::transform_key:length" := by
+  unfold runKdf at h
+  split at h
+  · split at h
+    · injection h with h; exact h.symm
+    · cases h
+  · split at h <;> cases h
+
+/-- **C06_sites_complete**: for every byte string, every credential set and every primitive family, a panic of
+    the reader can only be one of the enumerated sites -/
+theorem C06_sites_complete (P : Prims) (data : Bytes) (comp : Option Bytes) (s : String)
+    (h : decrypt P data comp = .panic s) : s ∈ sites := by
+  unfold decrypt at h
+  rcases bind_panic _ _ s h with h1 | ⟨⟨hdr, hstart⟩, _, h⟩
+  · rcases parseOuterHeader_panic _ _ h1 with e | e <;> simp [sites, e]
+  rcases bind_panic _ _ s h with h1 | ⟨headerData, _, h⟩
+  · simp [sites, slice_panic _ _ _ _ _ h1]
+  rcases bind_panic _ _ s h with h1 | ⟨headerSha, _, h⟩
+  · simp [sites, slice_panic _ _ _ _ _ h1]
+  rcases bind_panic _ _ s h with h1 | ⟨headerHmac, _, h⟩
+  · simp [sites, slice_panic _ _ _ _ _ h1]
+  rcases bind_panic _ _ s h with h1 | ⟨stream, _, h⟩
+  · simp [sites, slice_panic _ _ _ _ _ h1]
+  split at h
+  · cases h
+  · split at h
+    · cases h
+    · rcases bind_panic _ _ s h with h1 | ⟨tk, _, h⟩
+      · simp [sites, runKdf_panic _ _ _ _ _ h1]
+      simp only at h
+      split at h
+      · cases h
+      · rcases bind_panic _ _ s h with h1 | ⟨payloadEnc, _, h⟩
+        · simp [sites, readBlocks_panic _ _ _ _ _ _ _ h1]
+        split at h
+        · cases h
+        · split at h
+          · cases h
+          · rcases bind_panic _ _ s h with h1 | ⟨⟨ia, bodyStart⟩, _, h⟩
+            · rcases innerLoop_panic _ _ _ _ _ h1 with e | e <;> simp [sites, e]
+            simp only at h
+            split at h
+            · split at h
+              · injection h with h; simp [sites, ← h]
+              · cases h
+            · cases h
+
+def c06WitnessPrims : Prims :=
+  ⟨fun _ => List.replicate 32 0, fun _ => [], fun _ _ => List.replicate 32 0, fun _ _ _ => [], fun _ _ _ _ _ _ _ => none,
+   fun _ _ _ _ => none, fun _ _ _ _ => none, fun x => x, fun x => some x⟩
+
+/-- C06 at full strength for the container -/
+def C06_total : Prop := ∀ (P : Prims) (data : Bytes) (comp : Option Bytes), (decrypt P data comp).isPanic = false
+
+/-- false on the unchanged code: a file that consists of the 12-byte version header only
+    (witness for `parse_outer_header:index`; the other sites have their witnesses below) -/
+theorem C06_total_false : ¬ C06_total := by
+  intro h
+  have := h c06WitnessPrims (versionHeader 0) none
+  have e : (decrypt c06WitnessPrims (versionHeader 0) none).isPanic = true := by decide
+  rw [e] at this
+  cases this
+
+/-- conforming files never panic, whatever credentials are offered (the key is checked before anything
+    key-dependent is sliced) — under the header MAC idealisation for wrong credentials -/
+theorem C06_wf_nopanic (P : Prims) (L : P.Laws) (c : Config) (t : Tape) (l : Layout)
+    (atts : List (UInt8 × Bytes)) (xml composite tk ct : Bytes)
+    (htk : transformedKey P c.kdf t.kdfSeed composite = some tk)
+    (hct : P.encO c.outer (P.sha256 (t.masterSeed ++ tk)) t.iv (plainPayload P c t atts l.attachmentsFirst xml) = some ct)
+    (C : Conforming c t l atts ct) :
+    (decrypt P (assemble P c t l tk ct) (some composite)).isPanic = false
+    ∧ (decrypt P (assemble P c t l tk ct) none).isPanic = false := by
+  rw [C01_framing P L c t l atts xml composite tk ct htk hct C]
+  have := (Kp.Fmt.decrypt_until_key_check P L c t l tk ct C.header none).1 rfl
+  rw [this]
+  exact ⟨rfl, rfl⟩
+
 end Kp.Fmt
